@@ -8,12 +8,16 @@ import (
 
 // C07Set holds the extra client certificates property C07 needs beyond the standard
 // catalogue: pairs whose extended key usage is neither client nor server authentication,
-// and a pair without any extended key usage extension.
+// a pair without any extended key usage extension, and signing certificates with an RSA key
+// (a key type the server's certificate processing lets through but no SM2 CertificateVerify
+// can be valid under).
 type C07Set struct {
 	CodeSig, CodeEnc   *Leaf // trusted root, EKU = codeSigning only
 	NoEKUSig, NoEKUEnc *Leaf // trusted root, no EKU extension
 	CliOnlySig         *Leaf // trusted root, EKU = clientAuth only
 	CliOnlyEnc         *Leaf
+	RSASig             *Leaf // trusted root, RSA key, signing usage
+	RSAOthSig          *Leaf // untrusted root, RSA key, signing usage
 }
 
 var (
@@ -31,6 +35,8 @@ func C07() *C07Set {
 			NoEKUEnc:   s.Root.Issue("cli noeku enc", false, KeySM2, EKU()),
 			CliOnlySig: s.Root.Issue("cli only sig", true, KeySM2, EKU(smx509.ExtKeyUsageClientAuth)),
 			CliOnlyEnc: s.Root.Issue("cli only enc", false, KeySM2, EKU(smx509.ExtKeyUsageClientAuth)),
+			RSASig:     s.Root.Issue("cli rsa sig", true, KeyRSA),
+			RSAOthSig:  s.Other.Issue("cli rsa oth sig", true, KeyRSA),
 		}
 	})
 	return c07Set
